@@ -185,9 +185,14 @@ fn streams() -> Vec<Vec<Sym>> {
         // lifecycle is still buffered when the stream ends: the end of the stream publishes twice (buffered
         // lifecycles, then the changed ones) with the flush of the buffered messages in between
         by(&["A+2000ms:Cont", "A+65000ms:Cont", "A+2000ms:Cont", "B+2000ms:Cont", "A+2000ms:Cont"]),
+        // (C13 + C06) the lifecycles of two ECUs are confirmed by one and the same periodic check (two publications
+        // with deliveries in between); both role assignments, the check visits the ECUs in table order
+        // (the ECU confirmed second logs nothing afterwards: nothing but that publication announces its lifecycle)
+        by(&["A+2000ms:Cont", "B+2000ms:Cont", "A+65000ms:Cont"]),
+        by(&["B+2000ms:Cont", "A+2000ms:Cont", "B+65000ms:Cont"]),
     ]
 }
-const C13_STREAM_IDS: [usize; 9] = [0, 1, 2, 8, 4, 6, 7, 3, 5];
+const C13_STREAM_IDS: [usize; 11] = [0, 1, 2, 8, 9, 10, 4, 6, 7, 3, 5];
 
 #[derive(Clone, Debug, PartialEq, Eq, Default)]
 struct Outcome {
@@ -622,7 +627,7 @@ impl Prop for SchedProp {
             return Meta {
                 id: "C06",
                 level: "model_checking",
-                rule: "cross-thread half of C06: producer -> real lifecycle stage -> [time sort] -> consumer thread over sync_channels of capacity 0/1/2 (shuttle runtime, delay-bounded and preemption-bounded DFS as for C13) on 8 streams that drive every release path of the stage (final flush, mid-stream confirmation, merge of buffered lifecycles, merge of an already confirmed lifecycle, suspend/resume, overlapping lifecycle confirmed before its predecessor); in every schedule the consumer thread looks each received message's lifecycle up through its own evmap ReadHandle at the moment of reception: it must be visible with the message's ECU.".into(),
+                rule: "cross-thread half of C06: producer -> real lifecycle stage -> [time sort] -> consumer thread over sync_channels of capacity 0/1/2 (shuttle runtime, delay-bounded and preemption-bounded DFS as for C13) on 11 streams that drive every release path of the stage (final flush, mid-stream confirmation, two ECUs confirmed by one periodic check, merge of buffered lifecycles, merge of an already confirmed lifecycle, suspend/resume, overlapping lifecycle confirmed before its predecessor); in every schedule the consumer thread looks each received message's lifecycle up through its own evmap ReadHandle at the moment of reception: it must be visible with the message's ECU.".into(),
                 assumptions: vec!["shuttle serialises tasks; evmap runs atomically between scheduling points".into()],
                 budget_s: (120, 900),
                 workers: 0,
